@@ -635,6 +635,28 @@ func (e *Env) call(n *SCall) *Val {
 			ref = "(sptr " + v.S + ")"
 		}
 		return &Val{T: tBool, S: "(>= " + ref + " " + e.old.alloc + ")"}
+	case "loopfresh":
+		// address allocated since the enclosing loop was entered
+		v := arg(0)
+		if e.pre == nil {
+			return e.fail("loopfresh() only inside loop invariants")
+		}
+		ref := v.S
+		if vc.sortOfVal(v) == "Slice" {
+			ref = "(sptr " + v.S + ")"
+		}
+		return &Val{T: tBool, S: "(>= " + ref + " " + e.pre.alloc + ")"}
+	case "loopold":
+		// object (or whole backing array) allocated before the enclosing loop was entered
+		v := arg(0)
+		if e.pre == nil {
+			return e.fail("loopold() only inside loop invariants")
+		}
+		ref := v.S
+		if vc.sortOfVal(v) == "Slice" {
+			ref = "(+ (sptr " + v.S + ") (scap " + v.S + "))"
+		}
+		return &Val{T: tBool, S: "(< " + ref + " " + e.pre.alloc + ")"}
 	case "allocated":
 		v := arg(0)
 		ref := v.S
@@ -674,15 +696,29 @@ func (e *Env) call(n *SCall) *Val {
 			return &Val{T: types.NewPointer(et), S: iv.absName}
 		}
 		return &Val{T: types.NewPointer(et), S: "(idx (sptr " + sv.S + ") " + iv.S + ")"}
-	case "unchanged":
+	case "unchanged", "loopkept":
 		// unchanged(heap[T]): every object of type T that existed at function entry
-		// has its entry value
+		// has its entry value; loopkept(heap[T]): every object that existed when
+		// the enclosing loop was entered has the value it had then
 		if !need(1) {
 			return e.fail("")
 		}
 		hl, ok := n.Args[0].(*SHeapLit)
 		if !ok || e.old == nil {
 			return e.fail("unchanged(heap[T]) needs an entry state")
+		}
+		if n.Fun == "loopkept" {
+			if e.pre == nil {
+				return e.fail("loopkept() only inside loop invariants")
+			}
+			ne := *e
+			ne.old = e.pre
+			e2 := &ne
+			r := e2.call(&SCall{Fun: "unchanged", Args: n.Args})
+			if e2.err != nil && e.err == nil {
+				e.err = e2.err
+			}
+			return r
 		}
 		t, err := e.resolveType(hl.Type)
 		if err != nil {
@@ -707,7 +743,7 @@ func (e *Env) call(n *SCall) *Val {
 			return &Val{T: tBool, S: "true"}
 		}
 		qn := fmt.Sprintf("q_un_%d", e.depth)
-		return &Val{T: tBool, S: fmt.Sprintf("(forall ((%s Int)) (! (=> (and (< 0 %s) (< %s %s)) (= (select %s %s) (select %s %s))) :pattern ((select %s %s))))", qn, qn, qn, e.old.alloc, h1, qn, h0, qn, h1, qn)}
+		return &Val{T: tBool, S: fmt.Sprintf("(forall ((%s Int)) (! (=> (and (< 0 %s) (< %s %s)) (= (select %s %s) (select %s %s))) :pattern ((select %s %s)) :pattern ((select %s %s))))", qn, qn, qn, e.old.alloc, h1, qn, h0, qn, h1, qn, h0, qn)}
 	case "text":
 		// text(b): the string made of the bytes of b (Go's string(b))
 		if !need(1) {
